@@ -1,6 +1,6 @@
 #!/bin/bash
 # tools/confirm_seed.sh <Cxx> <m1|m2> : confirm a seeded change in a scratch worktree and file it under /verif/seeded
-id=$1; mk=$2; src=/tmp/seeds/$id/$mk; dst=/verif/seeded/${id}_$mk; wt=/tmp/wt/confirm_${id}_$mk
+id=$1; mk=$2; base=${3:-/tmp/seeds}; tag=${4:-}; src=$base/$id/$mk; dst=/verif/seeded/${id}${tag}_$mk; wt=/tmp/wt/confirm_${id}${tag}_$mk
 mkdir -p $dst; cp $src/patch.diff $src/notes.md $dst/ 2>/dev/null; cp $src/demo.sh $dst/demo.sh 2>/dev/null || cp $src/demo* $dst/
 git -C /repo worktree add -q --detach $wt HEAD || exit 2
 cd $wt
